@@ -547,10 +547,12 @@ func TestC35(t *testing.T) {
 	defer r.Finish()
 	r.Rule("(a) form = 0-4 value parts + 0-3 file parts in random wire order over tricky field/file names, values with CRLF / near-miss boundaries, boundaries over the full RFC 2046 alphabet, file sizes around 8 KiB (stream threshold) and 16 MiB (pre-parse threshold, few cases); reference-parsed form f0 -> fasthttp.WriteMultipartForm -> Request{body bytes | wire Read (+Write/Read again) | body stream}.MultipartForm() == f0. " +
 		"(b) history = 2-5 requests on one keep-alive connection of a real Server.ServeConn: uploads (complete, truncated, garbage, chunked, gzip-encoded, with epilogue, Expect: 100-continue, client cut mid-body) and plain requests, server options DisablePreParseMultipartForm x StreamRequestBody x ReduceMemoryUsage x KeepHijackedConns x body limit, handler actions none/MultipartForm/FormValue/FormFile/remove+reparse/close/MultipartFormWithLimit(n) with n = body length -2/-1/0/+1 (fixed matrix over Content-Length/chunked/gzip/gzip+chunked x epilogue, plus random), optionally followed by ctx.Hijack on the last request (fixed matrix KeepHijackedConns x ReduceMemoryUsage x mode x action). " +
+		"(c) read errors: upload = [file part that spills][value part] closing boundary + declared epilogue; the read fails with a reset-like or timeout-like (non-EOF) error at a chosen body offset: inside the file part after the spill / between parts / inside the closing boundary / inside the epilogue; through Server.ServeConn on a connection that fails at that byte (pre-parse with a >16 MiB file, streamed on-demand with >8 KiB, buffered on-demand) and directly (ReadLimitBody, Header.Read+ContinueReadBody, body stream+MultipartForm on a failing reader, then Request.Reset()). " +
 		"distinct = feature vector (route or server options, part counts, size buckets, request kinds, handler actions); non-trivial = a file part exists (a) / a temp file was observed on disk during the history (b)")
 	r.Assume("mime/multipart (writer and ReadForm) is the reference; forms that mime/multipart itself does not round-trip (empty field name, CR/LF in names, content containing the delimiter) are skipped and counted")
 	r.Assume("temp files are attributed by the marker at the start of every generated file part; multipart-* files without a readable marker are only judged by the final whole-directory check")
 	r.Assume("timed-out requests (TimeoutHandler) and handlers that move the files away are not generated")
+	r.Assume("read errors are injected by stream position (a net.OpError wrapping ECONNRESET or a Timeout() error, as a reset peer / an expired ReadTimeout would produce), never by a real timer; the directory is listed after ServeConn returned, or after Request.Reset() in the direct cases")
 	r.Assume("hijacked connections: the hijack handler writes a marker and returns; the connection is then closed by the server (or by the test when KeepHijackedConns); histories that hijack run one at a time, and the directory is listed once no goroutine is inside fasthttp.hijackConnHandler any more (goroutine dump; a wall-clock cap only makes the case inconclusive)")
 
 	base := os.TempDir()
@@ -568,7 +570,9 @@ func TestC35(t *testing.T) {
 	runRoundTrips(r, tmp)
 	t1 := time.Now()
 	runHistories(r, tmp)
-	r.Set("phase_seconds", map[string]float64{"roundtrip": t1.Sub(t0).Seconds(), "histories": time.Since(t1).Seconds()})
+	t2 := time.Now()
+	runReadErrors(r, tmp)
+	r.Set("phase_seconds", map[string]float64{"roundtrip": t1.Sub(t0).Seconds(), "histories": t2.Sub(t1).Seconds(), "read_errors": time.Since(t2).Seconds()})
 
 	// backstop: nothing multipart-* may be left once every case has finished
 	all := scanTmp(tmp)
